@@ -204,6 +204,24 @@ impl<'a> Driver<'a> {
 
     pub fn observe(&mut self, b: &Board, prev: Option<&Board>) {
         self.states += 1;
+        match b.checkers().len() {
+            0 => self.out.class("state-no-check"),
+            1 => self.out.class("state-single-check"),
+            _ => self.out.class("state-multiple-check"),
+        }
+        if b.en_passant().is_some() {
+            self.out.class("state-ep-file-set");
+        }
+        if !(b.pinned() & b.colors(b.side_to_move())).is_empty() {
+            self.out.class("state-own-piece-pinned");
+        }
+        if !(b.pinned() & b.colors(!b.side_to_move())).is_empty() {
+            self.out.class("state-enemy-piece-in-pinned-set");
+        }
+        let r = b.castle_rights(b.side_to_move());
+        if r.short.is_some() || r.long.is_some() {
+            self.out.class("state-mover-has-castling-right");
+        }
         let heavy = self.cfg.heavy_every <= 1 || self.states % self.cfg.heavy_every == 0;
         if self.on("acc") {
             self.obs_acc(b);
@@ -693,6 +711,69 @@ impl<'a> Driver<'a> {
         };
         if res != Some(true) {
             *b = before;
+            self.out.class(if res.is_none() { "move-refused-by-panic" } else { "move-refused-by-error" });
+        } else {
+            // transition classes for the evidence file (coverage accounting, not a verdict)
+            let us = before.side_to_move();
+            let castle = before.colors(us).has(m.to);
+            let pawn = before.piece_on(m.from) == Some(Piece::Pawn);
+            let ep = pawn && m.from.file() != m.to.file() && !before.occupied().has(m.to);
+            let capture = !castle && (before.colors(!us).has(m.to) || ep);
+            let mut cls: Vec<&str> = vec![];
+            if castle {
+                let short = m.from.file() < m.to.file();
+                cls.push(if short { "castle-short" } else { "castle-long" });
+                if m.from.file() != File::E || !(m.to.file() == File::A || m.to.file() == File::H) {
+                    cls.push("castle-960-geometry");
+                }
+                if m.from.file() == (if short { File::G } else { File::C }) {
+                    cls.push("castle-king-stays");
+                }
+                if m.to.file() == (if short { File::F } else { File::D }) {
+                    cls.push("castle-rook-stays");
+                }
+            } else if ep {
+                cls.push("ep-capture");
+            } else if capture {
+                cls.push("capture");
+            } else {
+                cls.push("quiet");
+            }
+            if m.promotion.is_some() {
+                cls.push(if capture { "promotion-capture" } else { "promotion" });
+            }
+            if b.en_passant().is_some() {
+                cls.push("double-push");
+            }
+            for &c in &Color::ALL {
+                let (x, y) = (before.castle_rights(c), b.castle_rights(c));
+                if (x.short != y.short || x.long != y.long) && !castle {
+                    cls.push(if c == us { if before.piece_on(m.from) == Some(Piece::King) { "rights-lost-king-move" } else { "rights-lost-rook-move" } } else { "rights-lost-capture" });
+                }
+            }
+            if before.halfmove_clock() == 100 && b.halfmove_clock() == 100 {
+                cls.push("halfmove-saturated");
+            }
+            if before.fullmove_number() == 65535 && us == Color::Black {
+                cls.push("fullmove-saturated");
+            }
+            match b.checkers().len() {
+                0 => {}
+                1 => cls.push("gives-check"),
+                _ => cls.push("gives-double-check"),
+            }
+            if !before.checkers().is_empty() {
+                cls.push("evades-check");
+            }
+            if !(before.pinned() & before.colors(us)).is_empty() && before.pinned().has(m.from) {
+                cls.push("pinned-piece-moves");
+            }
+            if us == Color::Black {
+                cls.push("black-moves");
+            }
+            for c in cls {
+                self.out.class(c);
+            }
         }
         self.out.emit("play", &format!("\"api\":\"{}\",\"m\":{},\"res\":\"{}\",\"st\":{}", name, jmove(m), res_s, proj(b)));
         res == Some(true)
